@@ -350,6 +350,9 @@ package cli
 //@   ensures descends-into-first-match: h < 0 && callOK("Parse", p0) && k < len(args) ==>
 //@       p0 < callEnd("Parse", p0) && callEnd("Parse", p0) < len(trace) &&
 //@       trace[callEnd("Parse", p0)] == evMark("doInit", firstSubFrom(c, args[k], 0, old(fieldHeap(c.commands)), old(fieldHeap(c.aliases))))
+//@   ensures descend-init-ok: h < 0 && callOK("Parse", p0) && k < len(args) ==> callOK("doInit", callEnd("Parse", p0))
+//@   ensures help-descends: h >= 0 && h >= k ==> len(trace) > p0 &&
+//@       trace[p0] == evMark("doInit", firstSubFrom(c, args[k], 0, old(fieldHeap(c.commands)), old(fieldHeap(c.aliases)))) && callOK("doInit", p0)
 //@   ensures no-illegal-input-tail: h < 0 && callOK("Parse", p0) && k < len(args) ==> !isMark(trace[len(trace)-1], "onError") || len(trace) > callEnd("Parse", p0) + 1
 //@   ensures no-action-no-run: h < 0 && callOK("Parse", p0) && k == len(args) && old(c.Action) == nil ==> result == nil && noRun(old(trace), trace)
 //@   ensures first-run-is-the-entry: forall i int :: {trace[i]} p0 <= i && i < len(trace) && isMark(trace[i], "Run") && noRunIn(trace, p0, i) ==>
@@ -357,6 +360,8 @@ package cli
 //@       (h < 0 && callOK("Parse", p0) && k == len(args) && old(c.Action) != nil ==> trace[callEnd("Parse", p0)] == evMark("Run", entry) && i == callEnd("Parse", p0))
 //@   panics never-the-impossible-case: ownPanic() ==> !isType(panicval, "string")
 //@   loop 1 invariant scan: forall i int :: 0 <= i && i < $k ==> !aliasOf(c.commands[i], args0[k], fieldHeap(c.aliases))
+//@   loop 1 invariant first: firstSubFrom(c, args0[k], $k, fieldHeap(c.commands), fieldHeap(c.aliases)) ==
+//@       firstSubFrom(c, args0[k], 0, old(fieldHeap(c.commands)), old(fieldHeap(c.aliases))) && arg == args0[k]
 //@   loop 2 invariant tried: forall i int :: 0 <= i && i < $k ==> !aliasOf(c.commands[i], arg, fieldHeap(c.aliases))
 //@   loop 2 invariant first: firstSubFrom(c, arg, $k, fieldHeap(c.commands), fieldHeap(c.aliases)) ==
 //@       firstSubFrom(c, arg, 0, old(fieldHeap(c.commands)), old(fieldHeap(c.aliases))) && arg == args0[k]
